@@ -475,8 +475,12 @@ def _prep_iterators(mol: Molecules, shape: tuple[int, int, int], scale: float):
     center = (np.array(shape) - 1.0) / 2.0
     starts = intpos - center.astype(np.int32)
     stops = starts + shape
+    # NOTE: the output region starts at `starts`, so the center of the template must
+    # be placed at `pos - starts` (considering that `center` may be a half-integer).
     mtxs = _compose_affine_matrices(
-        center, mol.rotator.inv(), output_center=center + residue
+        center,
+        mol.rotator.inv(),
+        output_center=center.astype(np.int32) + residue,
     )
 
     return starts, stops, mtxs
